@@ -6,5 +6,5 @@ cd /verif
 ids=$(python3 -c "import json; print(' '.join(c['property_id'] for c in json.load(open('MANIFEST.json'))['checks']))")
 mkdir -p build/soak
 for seed in "$@"; do
-  echo $ids | tr ' ' '\n' | xargs -P 2 -I{} sh -c "VERIF_SEED=$seed ./check {} --tier quick > build/soak/{}-$seed.log 2>&1; echo seed=$seed {} rc=\$? \$(grep -c '^VIOLATION' build/soak/{}-$seed.log) violations \$(grep -c '^CHECK-FAULT' build/soak/{}-$seed.log) faults"
+  echo $ids | tr ' ' '\n' | xargs -P 4 -I{} sh -c "VERIF_SEED=$seed ./check {} --tier quick > build/soak/{}-$seed.log 2>&1; echo seed=$seed {} rc=\$? \$(grep -c '^VIOLATION' build/soak/{}-$seed.log) violations \$(grep -c '^CHECK-FAULT' build/soak/{}-$seed.log) faults"
 done
